@@ -753,7 +753,8 @@ func genUDP(t *rapid.T) *UDPCase {
 
 // TestUDPRelay is the generated search over datagram sequences, chunkings, cuts and UDP-side behaviour.
 func TestUDPRelay(t *testing.T) {
-	vkit.Check(t, 2400, 40000, func(t *rapid.T) {
+	resetSlowBudget()
+	vkit.Check(t, 6000, 60000, func(t *rapid.T) {
 		check(t, Case{UDP: genUDP(t)})
 	})
 }
@@ -761,8 +762,9 @@ func TestUDPRelay(t *testing.T) {
 // TestUDPEveryCut enumerates EVERY cut offset of small record streams (<= 200 bytes), with
 // both endings, once with the UDP side idle and once with the UDP side already ended.
 func TestUDPEveryCut(t *testing.T) {
+	resetSlowBudget()
 	allRun := true
-	vkit.Check(t, 56, 2000, func(t *rapid.T) {
+	vkit.Check(t, 120, 2400, func(t *rapid.T) {
 		var recs []DG
 		left := 200
 		n := rapid.IntRange(1, 8).Draw(t, "nrec")
